@@ -12,6 +12,7 @@ Proofs/CircuitOps.v plus traced instances.
 """
 STATIC = ["Base/TrigMat", "C05/Props", "C05/InstMat", "Base/SemProps"]
 import itertools
+import math
 import random
 
 import numpy as np
@@ -226,11 +227,23 @@ def key_of(recipe):
     return f"{op}:{label}" + (":ctrl" if extra and op != "controlled_by" else "") + (":updated" if update else "")
 
 
-def numeric_search(spec, recipe, n, rng, trials=12):
+SPECIAL = [0.0, math.pi, -math.pi, math.pi / 2, 2 * math.pi, math.pi / 4]
+
+
+def numeric_search(spec, recipe, n, rng, trials=12, special=False):
     """look for concrete parameters on which the implementation contradicts the expected operator"""
     label, nq, npar, maker = spec
-    for _ in range(trials):
-        vals = [round(rng.uniform(0.05, 1.5), 3) for _ in range(npar)]
+    cands = []
+    if special and npar:
+        cands = [[sp] * npar for sp in SPECIAL]
+        for sp in SPECIAL[:3]:
+            v = [round(rng.uniform(0.05, 1.5), 3) for _ in range(npar)]
+            v[rng.randrange(npar)] = sp
+            cands.append(v)
+    cands += [[round(rng.uniform(0.05, 1.5), 3) for _ in range(npar)] for _ in range(trials)]
+    for vals in cands:
+        if label.startswith("MS") and npar == 3 and not 0.0 <= vals[2] <= math.pi / 2:
+            continue
         try:
             r, exp = perform(spec, recipe, vals)
             got = full_unitary(r, n)
@@ -310,6 +323,22 @@ def main(run):
         seen.add(k)
         run.refuted.append("total_" + key_of(rec))
         run.find(k, f"{rec[0]} on {rec[1]} raises {err}", {"recipe": rec[:4], "error": err})
+    # ---- float path = symbolic path: the theorems below are about the path the SYMBOLIC execution took;
+    # type- or value-dependent branches (isinstance(theta, float), theta == 0 ...) are tied by executing the
+    # real float code at special values (multiples of pi/4) and a random point (test level, concrete input)
+    swept, seen_fp = 0, set()
+    for n_, m in meta.items():
+        if m is None:
+            continue
+        spec, rec, n = m
+        w = numeric_search(spec, rec, n, rng, trials=1, special=True)
+        swept += 1
+        if w and key_of(rec) not in seen_fp:
+            seen_fp.add(key_of(rec))
+            run.refuted.append("float_path_" + n_)
+            run.find(key_of(rec), f"{rec[0]} of {rec[1]}: float execution is not the expected operator",
+                     {"recipe": list(rec[:4]) + [rec[5]], "n": n, **w})
+    run.notes["float_path_sweeps"] = swept
     # ---- triage by one vm_compute, then kernel-checked theorems for the passing ones
     res, okc = run.prove_bools("C05", HEADER, items, timeout=1500)
     if res is None:
@@ -354,9 +383,16 @@ def crosscheck_tracer(run, rng):
         run.oblige(f"trace_{name}", False, "translator")
         run.find(f"trace:{name}", f"matrix of {name} is outside the traced fragment: {why}", concrete=False)
     for name, (nq, ps, M) in res.items():
-        vals = {j: rng.uniform(0.05, 1.5) for j in range(len(ps))}
-        g = qtrace.make_gate(name, list(range(nq)), [vals[j] for j in range(len(ps))])
-        d = float(np.abs(np.asarray(g.matrix()) - M.num(vals)).max())
+        # random point and special values (float path of matrix_parametrized = traced symbolic path)
+        d, vals = 0.0, {}
+        for cand in [None] + ([[sp] * len(ps) for sp in SPECIAL] if ps else []):
+            v = {j: (rng.uniform(0.05, 1.5) if cand is None else cand[j]) for j in range(len(ps))}
+            if name == "MS" and not 0.0 <= v[2] <= math.pi / 2:
+                continue
+            g = qtrace.make_gate(name, list(range(nq)), [v[j] for j in range(len(ps))])
+            dv = float(np.abs(np.asarray(g.matrix()) - M.num(v)).max())
+            if dv >= d:
+                d, vals = dv, v
         okk = d < 1e-12
         run.oblige(f"tracer_matches_{name}", okk, "translator-crosscheck")
         if not okk:
